@@ -29,13 +29,14 @@ theorem C03_role_order_complete : ∀ k : RoleKind, k ∈ Gen.KeysDefaults.roleO
 
 /-- An accepted signature was made with a key the metadata binds to the claimed issuer for signing,
     or the option is off, the metadata binds no key at all to that issuer and the key is that of a
-    certificate embedded in the message.  Both values of the option, every metadata shape. -/
-theorem C03_key_origin (order : List RoleKind) (hord : ∀ k : RoleKind, k ∈ order) (onlyMd : Bool)
-    (md : Metadata ι κ) (m : Msg ι κ)
-    (h : (checkSignature true order onlyMd md m).verdict = .accepted) :
+    certificate embedded in the message.  Both values of the option, every metadata shape, every
+    assignment of certificate kinds (RSA / other key type / malformed). -/
+theorem C03_key_origin (kindOf : κ → CertKind) (order : List RoleKind) (hord : ∀ k : RoleKind, k ∈ order)
+    (onlyMd : Bool) (md : Metadata ι κ) (m : Msg ι κ)
+    (h : (checkSignature true kindOf order onlyMd md m).verdict = .accepted) :
     KeyOrigin onlyMd md m := by
   obtain ⟨c, hc, hv⟩ := checkSignature_accepted h
-  have hs := (verifies_restricted c m).mp hv
+  have hs := (verifies_restricted hv).1
   rcases selectCerts_cases order onlyMd md m with ⟨cs, hmc, hsel⟩ | ⟨hf, hempty, hsel⟩ | ⟨_, hsel⟩
   · rw [hsel] at hc
     exact Or.inl ⟨c, hs, mdCerts_sound hmc hc⟩
@@ -45,24 +46,24 @@ theorem C03_key_origin (order : List RoleKind) (hord : ∀ k : RoleKind, k ∈ o
 
 /-- With `only_use_keys_in_metadata` on (the default), an accepted signature was made with a key
     the metadata binds to the claimed issuer for signing — for any role order. -/
-theorem C03_metadata_only_key_origin (order : List RoleKind) (md : Metadata ι κ) (m : Msg ι κ)
-    (h : (checkSignature true order true md m).verdict = .accepted) :
-    ∃ k, m.signer = some k ∧ k ∈ boundKeys md m.issuer := by
+theorem C03_metadata_only_key_origin (kindOf : κ → CertKind) (order : List RoleKind) (md : Metadata ι κ)
+    (m : Msg ι κ) (h : (checkSignature true kindOf order true md m).verdict = .accepted) :
+    ∃ k, m.signer = some k ∧ k ∈ boundKeys md m.issuer ∧ kindOf k = .rsa := by
   obtain ⟨c, hc, hv⟩ := checkSignature_accepted h
-  have hs := (verifies_restricted c m).mp hv
+  obtain ⟨hs, hk⟩ := verifies_restricted hv
   rcases selectCerts_cases order true md m with ⟨cs, hmc, hsel⟩ | ⟨hf, _⟩ | ⟨_, hsel⟩
   · rw [hsel] at hc
-    exact ⟨c, hs, mdCerts_sound hmc hc⟩
+    exact ⟨c, hs, mdCerts_sound hmc hc, hk⟩
   · cases hf
   · rw [hsel] at hc; cases hc
 
 /-- A key the metadata does not bind to the claimed issuer never suffices (encryption-only key,
     another member's key, the receiver's own key, an attacker's key), whatever the message embeds. -/
-theorem C03_unbound_key_rejected (order : List RoleKind) (md : Metadata ι κ) (m : Msg ι κ)
-    (hun : ∀ k, m.signer = some k → k ∉ boundKeys md m.issuer) :
-    (checkSignature true order true md m).verdict ≠ .accepted := by
+theorem C03_unbound_key_rejected (kindOf : κ → CertKind) (order : List RoleKind) (md : Metadata ι κ)
+    (m : Msg ι κ) (hun : ∀ k, m.signer = some k → k ∉ boundKeys md m.issuer) :
+    (checkSignature true kindOf order true md m).verdict ≠ .accepted := by
   intro h
-  obtain ⟨k, hk, hb⟩ := C03_metadata_only_key_origin order md m h
+  obtain ⟨k, hk, hb, _⟩ := C03_metadata_only_key_origin kindOf order md m h
   exact hun k hk hb
 
 omit [DecidableEq κ] in
@@ -82,9 +83,9 @@ theorem C03_encryption_only_key_not_bound (md : Metadata ι κ) (i : ι) (k : κ
 
 /-- An issuer without metadata (or a message without issuer) is refused for lack of a key,
     whoever signed and whatever is embedded — also under the unrestricted xmlsec1 semantics. -/
-theorem C03_unknown_issuer_rejected (restricted : Bool) (order : List RoleKind) (md : Metadata ι κ)
-    (m : Msg ι κ) (hunk : ∀ i, m.issuer = some i → md i = none) :
-    (checkSignature restricted order true md m).verdict = .missingKey := by
+theorem C03_unknown_issuer_rejected (restricted : Bool) (kindOf : κ → CertKind) (order : List RoleKind)
+    (md : Metadata ι κ) (m : Msg ι κ) (hunk : ∀ i, m.issuer = some i → md i = none) :
+    (checkSignature restricted kindOf order true md m).verdict = .missingKey := by
   have hmc : mdCerts order md m.issuer .signing = none := by
     unfold mdCerts
     cases hi : m.issuer with
@@ -93,8 +94,9 @@ theorem C03_unknown_issuer_rejected (restricted : Bool) (order : List RoleKind) 
   simp [checkSignature, selectCerts, hmc]
 
 /-- With the default policy the embedded `KeyInfo` plays no role at all. -/
-theorem C03_embedded_key_ignored (order : List RoleKind) (md : Metadata ι κ) (m : Msg ι κ) (ki : KeyInfo κ) :
-    checkSignature true order true md { m with keyInfo := ki } = checkSignature true order true md m := by
+theorem C03_embedded_key_ignored (kindOf : κ → CertKind) (order : List RoleKind) (md : Metadata ι κ)
+    (m : Msg ι κ) (ki : KeyInfo κ) :
+    checkSignature true kindOf order true md { m with keyInfo := ki } = checkSignature true kindOf order true md m := by
   have hsel : selectCerts order true md { m with keyInfo := ki } = selectCerts order true md m := by
     simp [selectCerts]
   unfold checkSignature
@@ -103,34 +105,65 @@ theorem C03_embedded_key_ignored (order : List RoleKind) (md : Metadata ι κ) (
 
 /-- Option off: an embedded certificate validates nothing as soon as the metadata binds any
     signing key to the claimed issuer (the fallback is for key-less issuers only). -/
-theorem C03_no_fallback_when_bound (order : List RoleKind) (hord : ∀ k : RoleKind, k ∈ order)
-    (md : Metadata ι κ) (m : Msg ι κ) (hne : boundKeys md m.issuer ≠ [])
+theorem C03_no_fallback_when_bound (kindOf : κ → CertKind) (order : List RoleKind)
+    (hord : ∀ k : RoleKind, k ∈ order) (md : Metadata ι κ) (m : Msg ι κ) (hne : boundKeys md m.issuer ≠ [])
     (hun : ∀ k, m.signer = some k → k ∉ boundKeys md m.issuer) :
-    (checkSignature true order false md m).verdict ≠ .accepted := by
+    (checkSignature true kindOf order false md m).verdict ≠ .accepted := by
   intro h
-  rcases C03_key_origin order hord false md m h with ⟨k, hk, hb⟩ | ⟨_, hnil, _⟩
+  rcases C03_key_origin kindOf order hord false md m h with ⟨k, hk, hb⟩ | ⟨_, hnil, _⟩
   · exact hun k hk hb
   · exact hne hnil
+
+/-- A certificate with another kind of public key, or bytes that are no certificate, validate
+    nothing — in particular they do not make the verifier use some other key instead. -/
+theorem C03_non_rsa_certificate_validates_nothing (kindOf : κ → CertKind) (c : κ) (m : Msg ι κ)
+    (hk : kindOf c ≠ .rsa) : verifies true kindOf c m = false := by
+  cases hv : verifies true kindOf c m with
+  | false => rfl
+  | true => exact absurd (verifies_restricted hv).2 hk
+
+/-! ### the issuer is the one the signed item names itself -/
+
+/-- `_check_signature(item, issuer=arg)`: when the item names an issuer, the caller's argument plays
+    no role (an advice assertion inside another issuer's assertion is checked under ITS issuer). -/
+theorem C03_item_issuer_wins (restricted : Bool) (kindOf : κ → CertKind) (order : List RoleKind) (onlyMd : Bool)
+    (md : Metadata ι κ) (arg : Option ι) (m : Msg ι κ) (i : ι) (hi : m.issuer = some i) :
+    checkSignatureArg restricted kindOf order onlyMd md arg m = checkSignature restricted kindOf order onlyMd md m := by
+  unfold checkSignatureArg
+  rw [effIssuer_of_some hi, ← hi]
+
+/-- Key origin with an `issuer=` argument: the keys are those bound to the item's own issuer, and
+    only for an item that names none, to the argument. -/
+theorem C03_key_origin_with_argument (kindOf : κ → CertKind) (order : List RoleKind)
+    (hord : ∀ k : RoleKind, k ∈ order) (onlyMd : Bool) (md : Metadata ι κ) (arg : Option ι) (m : Msg ι κ)
+    (h : (checkSignatureArg true kindOf order onlyMd md arg m).verdict = .accepted) :
+    KeyOrigin onlyMd md (attributed arg m) :=
+  C03_key_origin kindOf order hord onlyMd md _ h
 
 /-! ### why `--enabled-key-data raw-x509-cert` is part of the obligation -/
 
 /-- The metadata-only statement for an xmlsec1 run WITHOUT the key-data restriction. -/
 def C03_key_origin_unrestricted : Prop :=
-  ∀ (ι κ : Type) [DecidableEq κ] (order : List RoleKind) (md : Metadata ι κ) (m : Msg ι κ),
-    (checkSignature false order true md m).verdict = .accepted →
+  ∀ (ι κ : Type) [DecidableEq κ] (kindOf : κ → CertKind) (order : List RoleKind) (md : Metadata ι κ) (m : Msg ι κ),
+    (checkSignature false kindOf order true md m).verdict = .accepted →
       ∃ k, m.signer = some k ∧ k ∈ boundKeys md m.issuer
 
 private def mdEx : Metadata Nat Nat := fun i =>
   if i = 1 then some ⟨[⟨.idpsso, [⟨some .signing, [some 10]⟩, ⟨some .signing, [some 11]⟩,
                                    ⟨some .encryption, [some 12]⟩]⟩]⟩
   else if i = 2 then some ⟨[⟨.idpsso, [⟨some .signing, [some 20]⟩]⟩]⟩
+  else if i = 4 then some ⟨[⟨.spsso, [⟨some .signing, [some 40]⟩, ⟨none, [some 41]⟩, ⟨some .signing, [some 42]⟩]⟩]⟩
   else none
+
+/-- all certificates RSA, except: 40 carries an EC key, 41 is malformed -/
+private def kEx : Nat → CertKind := fun c => if c = 40 then .other else if c = 41 then .malformed else .rsa
+private def allRsa : Nat → CertKind := fun _ => .rsa
 
 /-- Without the restriction the statement is false (an embedded key is preferred by xmlsec1):
     key 99 signs, embeds certificate 99, claims issuer 1. -/
 theorem C03_flag_needed : ¬ C03_key_origin_unrestricted := by
   intro h
-  obtain ⟨k, hk, hb⟩ := h Nat Nat Gen.KeysDefaults.roleOrder mdEx ⟨some 1, some 99, ⟨[99], none⟩⟩ (by decide)
+  obtain ⟨k, hk, hb⟩ := h Nat Nat allRsa Gen.KeysDefaults.roleOrder mdEx ⟨some 1, some 99, ⟨[99], none⟩⟩ (by decide)
   simp only [Option.some.injEq] at hk
   subst hk
   revert hb
@@ -140,9 +173,9 @@ theorem C03_flag_needed : ¬ C03_key_origin_unrestricted := by
 
 /-- Every certificate given to xmlsec1 is bound to the issuer by metadata, or the option is off,
     the metadata lookup gave nothing and it is a certificate embedded in the message. -/
-theorem C03_handed_certs_origin (restricted : Bool) (order : List RoleKind) (onlyMd : Bool)
-    (md : Metadata ι κ) (m : Msg ι κ) (c : κ)
-    (h : c ∈ (checkSignature restricted order onlyMd md m).handed) :
+theorem C03_handed_certs_origin (restricted : Bool) (kindOf : κ → CertKind) (order : List RoleKind)
+    (onlyMd : Bool) (md : Metadata ι κ) (m : Msg ι κ) (c : κ)
+    (h : c ∈ (checkSignature restricted kindOf order onlyMd md m).handed) :
     c ∈ boundKeys md m.issuer ∨
     (onlyMd = false ∧ c ∈ m.keyInfo.certs ∧
       (mdCerts order md m.issuer .signing = none ∨ mdCerts order md m.issuer .signing = some [])) := by
@@ -154,56 +187,94 @@ theorem C03_handed_certs_origin (restricted : Bool) (order : List RoleKind) (onl
 
 /-! ### detached signatures (HTTP-Redirect) -/
 
-/-- The Redirect path never uses anything but metadata certificates, whatever the option says;
-    an unknown issuer (failing lookup) is refused. -/
-theorem C03_redirect_key_origin (order : List RoleKind) (md : Metadata ι κ) (issuer : Option ι)
-    (signer : Option κ) (h : (redirectCheck order md issuer signer).verdict = .accepted) :
-    ∃ k, signer = some k ∧ k ∈ boundKeys md issuer := by
-  obtain ⟨cs, hmc, c, hc, hs⟩ := redirectCheck_accepted h
-  exact ⟨c, hs, mdCerts_sound hmc hc⟩
+/-- The Redirect path never uses anything but RSA certificates from metadata, whatever the option
+    says and whatever the receiver's own key is; an unknown issuer (failing lookup) and a raising
+    verification are refused. -/
+theorem C03_redirect_key_origin (kindOf : κ → CertKind) (own : κ) (order : List RoleKind) (md : Metadata ι κ)
+    (issuer : Option ι) (signer : Option κ)
+    (h : (redirectCheck kindOf own order md issuer signer).verdict = .accepted) :
+    ∃ k, signer = some k ∧ k ∈ boundKeys md issuer ∧ kindOf k = .rsa := by
+  obtain ⟨cs, hmc, c, hc, hs, hk⟩ := redirectCheck_accepted h
+  exact ⟨c, hs, mdCerts_sound hmc hc, hk⟩
+
+/-- The verifier's own-key default (`key or self.key` in `RSASigner.verify`) is never reached from
+    the Redirect check: its result does not depend on the receiver's own key. -/
+theorem C03_redirect_own_key_irrelevant (kindOf : κ → CertKind) (own own' : κ) (order : List RoleKind)
+    (md : Metadata ι κ) (issuer : Option ι) (signer : Option κ) :
+    redirectCheck kindOf own order md issuer signer = redirectCheck kindOf own' order md issuer signer := by
+  unfold redirectCheck
+  cases mdCerts order md issuer .signing with
+  | none => rfl
+  | some cs => simp only [tryRedirect_own_irrelevant kindOf own own' signer cs]
 
 /-! ### all message kinds; the link to the decidable specification -/
 
-/-- Acceptance of a message of any kind (enveloped; detached with or without an additional
-    enveloped signature) implies `KeyOrigin`. -/
-theorem C03_accept_key_origin (order : List RoleKind) (hord : ∀ k : RoleKind, k ∈ order) (onlyMd : Bool)
-    (md : Metadata ι κ) (kind : Kind) (m : Msg ι κ)
-    (h : (accept true order onlyMd md kind m).accepted = true) :
+/-- Acceptance of a message of any single-item kind (enveloped; detached with or without an
+    additional enveloped signature) implies `KeyOrigin`. -/
+theorem C03_accept_key_origin (kindOf : κ → CertKind) (own : κ) (order : List RoleKind)
+    (hord : ∀ k : RoleKind, k ∈ order) (onlyMd : Bool) (md : Metadata ι κ) (env : Option Bool) (m : Msg ι κ)
+    (h : (accept true kindOf own order onlyMd md
+      (match env with | none => Kind.enveloped | some e => Kind.detached e) m).accepted = true) :
     KeyOrigin onlyMd md m := by
-  cases kind with
-  | enveloped =>
+  cases env with
+  | none =>
     simp only [accept, decide_eq_true_eq] at h
-    exact C03_key_origin order hord onlyMd md m h
-  | detached env =>
-    obtain ⟨k, hk, hb⟩ := C03_redirect_key_origin order md m.issuer m.signer (accept_detached_accepted h)
+    exact C03_key_origin kindOf order hord onlyMd md m h
+  | some e =>
+    obtain ⟨k, hk, hb, _⟩ := C03_redirect_key_origin kindOf own order md m.issuer m.signer (accept_detached_accepted h)
     exact Or.inl ⟨k, hk, hb⟩
+
+/-- A nested item (advice assertion inside `first`, or an encrypted assertion next to `first`) is
+    accepted only if BOTH items satisfy `KeyOrigin`, each under the issuer it names itself. -/
+theorem C03_nested_key_origin (kindOf : κ → CertKind) (own : κ) (order : List RoleKind)
+    (hord : ∀ k : RoleKind, k ∈ order) (onlyMd : Bool) (md : Metadata ι κ) (first : Msg ι κ) (withArg : Bool)
+    (m : Msg ι κ)
+    (h : (accept true kindOf own order onlyMd md (.after first withArg) m).accepted = true) :
+    KeyOrigin onlyMd md first ∧
+    KeyOrigin onlyMd md (attributed (if withArg then first.issuer else none) m) := by
+  obtain ⟨h1, h2⟩ := accept_after_accepted h
+  exact ⟨C03_key_origin kindOf order hord onlyMd md first h1,
+    C03_key_origin_with_argument kindOf order hord onlyMd md _ m h2⟩
 
 /-- The model's answer meets the specification the driver evaluates on the implementation's
     answer: for the regenerated role order and default, every configuration value (`none` = option
-    not set: the property demands the metadata-only behaviour), every metadata, kind and message. -/
-theorem C03_model_meets_spec (cfg : Option Bool) (md : Metadata ι κ) (kind : Kind) (m : Msg ι κ) :
-    specAccept cfg md m
-      (accept true Gen.KeysDefaults.roleOrder (cfg.getD Gen.KeysDefaults.onlyMdDefault) md kind m).accepted = true := by
+    not set: the property demands the metadata-only behaviour), every metadata, certificate-kind
+    assignment, own key, kind and message. -/
+theorem C03_model_meets_spec (kindOf : κ → CertKind) (own : κ) (cfg : Option Bool) (md : Metadata ι κ)
+    (kind : Kind ι κ) (m : Msg ι κ) :
+    specKind cfg md kind m
+      (accept true kindOf own Gen.KeysDefaults.roleOrder (cfg.getD Gen.KeysDefaults.onlyMdDefault) md kind m).accepted
+      = true := by
   have hpol : policy cfg = cfg.getD Gen.KeysDefaults.onlyMdDefault := by
     cases cfg with
     | none => simp [policy, C03_default_only_md]
     | some b => rfl
-  unfold specAccept
-  cases hacc : (accept true Gen.KeysDefaults.roleOrder (cfg.getD Gen.KeysDefaults.onlyMdDefault) md kind m).accepted with
-  | false => rfl
+  cases hacc : (accept true kindOf own Gen.KeysDefaults.roleOrder (cfg.getD Gen.KeysDefaults.onlyMdDefault) md kind m).accepted with
+  | false => cases kind <;> simp [specKind, specAccept]
   | true =>
-    simp only [Bool.not_true, Bool.false_or]
-    rw [keyOriginB_iff, hpol]
-    exact C03_accept_key_origin _ C03_role_order_complete _ md kind m hacc
+    cases kind with
+    | enveloped =>
+      simp only [specKind, specAccept, Bool.not_true, Bool.false_or]
+      rw [keyOriginB_iff, hpol]
+      exact C03_accept_key_origin kindOf own _ C03_role_order_complete _ md none m hacc
+    | detached e =>
+      simp only [specKind, specAccept, Bool.not_true, Bool.false_or]
+      rw [keyOriginB_iff, hpol]
+      exact C03_accept_key_origin kindOf own _ C03_role_order_complete _ md (some e) m hacc
+    | after first withArg =>
+      obtain ⟨h1, h2⟩ := C03_nested_key_origin kindOf own _ C03_role_order_complete _ md first withArg m hacc
+      simp only [specKind, Bool.not_true, Bool.false_or, Bool.and_eq_true]
+      rw [keyOriginB_iff, keyOriginB_iff, hpol]
+      exact ⟨h1, h2⟩
 
 /-! ### completeness (the "only if" is not vacuous: bound keys do validate) -/
 
-/-- A signature made with a key bound to the issuer is accepted (complete role order), whatever
-    the option and the embedded `KeyInfo`. -/
-theorem C03_bound_key_accepted (order : List RoleKind) (hord : ∀ k : RoleKind, k ∈ order) (onlyMd : Bool)
-    (md : Metadata ι κ) (m : Msg ι κ) (k : κ)
+/-- A signature made with a key bound to the issuer by an RSA certificate is accepted (complete role
+    order), whatever the option and the embedded `KeyInfo`. -/
+theorem C03_bound_key_accepted (kindOf : κ → CertKind) (order : List RoleKind) (hord : ∀ k : RoleKind, k ∈ order)
+    (onlyMd : Bool) (md : Metadata ι κ) (m : Msg ι κ) (k : κ) (hrsa : kindOf k = .rsa)
     (hs : m.signer = some k) (hb : k ∈ boundKeys md m.issuer) :
-    (checkSignature true order onlyMd md m).verdict = .accepted := by
+    (checkSignature true kindOf order onlyMd md m).verdict = .accepted := by
   obtain ⟨cs, hmc, hk⟩ := mdCerts_complete hord hb
   have hne : cs.isEmpty = false := by
     cases cs with
@@ -211,45 +282,57 @@ theorem C03_bound_key_accepted (order : List RoleKind) (hord : ∀ k : RoleKind,
     | cons _ _ => rfl
   have hsel : selectCerts order onlyMd md m = cs := by
     simp [selectCerts, hmc, hne]
-  have hv : (tryCerts true m cs).1 = true :=
-    tryCerts_of_mem hk ((verifies_restricted k m).mpr hs)
+  have hv : (tryCerts true kindOf m cs).1 = true :=
+    tryCerts_of_mem hk (verifies_restricted_rsa hrsa hs)
   simp [checkSignature, hsel, hne, hv]
 
 /-! ### Non-vacuity: concrete instances (entity 1 publishes 10, 11 for signing and 12 for
-    encryption; entity 2 publishes 20; key 99 is the attacker's, 50 the receiver's own). -/
+    encryption; entity 2 publishes 20; entity 4 publishes 40 (EC key), 41 (malformed), 42 (RSA);
+    key 99 is the attacker's, 50 the receiver's own). -/
 
 private def ord := Gen.KeysDefaults.roleOrder
 
-/-- entity 1 publishes signing certificate 10 and a signing key descriptor without certificate
+/-- entity 1 publishes signing certificate 10 and signing key descriptors without certificate
     (the input class of the repaired defect `C03/keyless-keydescriptor-fallback`) -/
 private def mdKeyless : Metadata Nat Nat := fun i =>
   if i = 1 then some ⟨[⟨.idpsso, [⟨some .signing, []⟩, ⟨some .signing, [none]⟩, ⟨some .signing, [some 10]⟩]⟩]⟩ else none
 
 -- accepted: first key, rotated second key
-example : (checkSignature true ord true mdEx ⟨some 1, some 10, ⟨[], none⟩⟩).verdict = .accepted := by decide
-example : (checkSignature true ord true mdEx ⟨some 1, some 11, ⟨[99], some 99⟩⟩).verdict = .accepted := by decide
-example : (checkSignature true ord true mdEx ⟨some 1, some 11, ⟨[], none⟩⟩).handed = [10, 11] := by decide
+example : (checkSignature true kEx ord true mdEx ⟨some 1, some 10, ⟨[], none⟩⟩).verdict = .accepted := by decide
+example : (checkSignature true kEx ord true mdEx ⟨some 1, some 11, ⟨[99], some 99⟩⟩).verdict = .accepted := by decide
+example : (checkSignature true kEx ord true mdEx ⟨some 1, some 11, ⟨[], none⟩⟩).handed = [10, 11] := by decide
 -- refused under the default policy: encryption-only key, other member's key, own key, attacker key
 -- (with its certificate / bare RSAKeyValue / the victim's certificate embedded), unknown issuer
-example : (checkSignature true ord true mdEx ⟨some 1, some 12, ⟨[12], none⟩⟩).verdict = .badSignature := by decide
-example : (checkSignature true ord true mdEx ⟨some 1, some 20, ⟨[], none⟩⟩).verdict = .badSignature := by decide
-example : (checkSignature true ord true mdEx ⟨some 1, some 50, ⟨[], none⟩⟩).verdict = .badSignature := by decide
-example : (checkSignature true ord true mdEx ⟨some 1, some 99, ⟨[99], none⟩⟩).verdict = .badSignature := by decide
-example : (checkSignature true ord true mdEx ⟨some 1, some 99, ⟨[], some 99⟩⟩).verdict = .badSignature := by decide
-example : (checkSignature true ord true mdEx ⟨some 1, some 99, ⟨[10], none⟩⟩).verdict = .badSignature := by decide
-example : (checkSignature true ord true mdEx ⟨some 3, some 99, ⟨[99], none⟩⟩).verdict = .missingKey := by decide
+example : (checkSignature true kEx ord true mdEx ⟨some 1, some 12, ⟨[12], none⟩⟩).verdict = .badSignature := by decide
+example : (checkSignature true kEx ord true mdEx ⟨some 1, some 20, ⟨[], none⟩⟩).verdict = .badSignature := by decide
+example : (checkSignature true kEx ord true mdEx ⟨some 1, some 50, ⟨[], none⟩⟩).verdict = .badSignature := by decide
+example : (checkSignature true kEx ord true mdEx ⟨some 1, some 99, ⟨[99], none⟩⟩).verdict = .badSignature := by decide
+example : (checkSignature true kEx ord true mdEx ⟨some 1, some 99, ⟨[], some 99⟩⟩).verdict = .badSignature := by decide
+example : (checkSignature true kEx ord true mdEx ⟨some 1, some 99, ⟨[10], none⟩⟩).verdict = .badSignature := by decide
+example : (checkSignature true kEx ord true mdEx ⟨some 3, some 99, ⟨[99], none⟩⟩).verdict = .missingKey := by decide
 -- option off: fallback only for an issuer without keys, and only to an embedded certificate
-example : (checkSignature true ord false mdEx ⟨some 3, some 99, ⟨[99], none⟩⟩).verdict = .accepted := by decide
-example : (checkSignature true ord false mdEx ⟨some 3, some 99, ⟨[], some 99⟩⟩).verdict = .missingKey := by decide
-example : (checkSignature true ord false mdEx ⟨some 1, some 99, ⟨[99], none⟩⟩).verdict = .badSignature := by decide
+example : (checkSignature true kEx ord false mdEx ⟨some 3, some 99, ⟨[99], none⟩⟩).verdict = .accepted := by decide
+example : (checkSignature true kEx ord false mdEx ⟨some 3, some 99, ⟨[], some 99⟩⟩).verdict = .missingKey := by decide
+example : (checkSignature true kEx ord false mdEx ⟨some 1, some 99, ⟨[99], none⟩⟩).verdict = .badSignature := by decide
 -- a key descriptor without certificate does not make the issuer look key-less (fix 57adca09)
-example : (checkSignature true ord false mdKeyless ⟨some 1, some 99, ⟨[99], none⟩⟩).verdict = .badSignature := by decide
-example : (checkSignature true ord true mdKeyless ⟨some 1, some 10, ⟨[], none⟩⟩).verdict = .accepted := by decide
+example : (checkSignature true kEx ord false mdKeyless ⟨some 1, some 99, ⟨[99], none⟩⟩).verdict = .badSignature := by decide
+example : (checkSignature true kEx ord true mdKeyless ⟨some 1, some 10, ⟨[], none⟩⟩).verdict = .accepted := by decide
 example : boundKeys mdKeyless (some 1) = [10] := by decide
--- Redirect: bound key accepted, unknown issuer refused even with the option off
-example : (redirectCheck ord mdEx (some 2) (some 20)).verdict = .accepted := by decide
-example : (redirectCheck ord mdEx (some 3) (some 99)).verdict = .lookupFailed := by decide
-example : (accept true ord false mdEx (.detached true) ⟨some 3, some 99, ⟨[99], none⟩⟩).accepted = false := by decide
-example : (accept true ord true mdEx (.detached true) ⟨some 1, some 11, ⟨[11], none⟩⟩).accepted = true := by decide
+-- certificate kinds: EC and malformed certificates are tried and validate nothing, the RSA one after them does
+example : (checkSignature true kEx ord true mdEx ⟨some 4, some 42, ⟨[], none⟩⟩).handed = [40, 41, 42] := by decide
+example : (checkSignature true kEx ord true mdEx ⟨some 4, some 50, ⟨[], none⟩⟩).verdict = .badSignature := by decide
+-- Redirect: bound key accepted, unknown issuer refused even with the option off; the receiver's own key
+-- (50) validates nothing for an issuer with an EC certificate; a malformed certificate ends the check
+example : (redirectCheck kEx 50 ord mdEx (some 2) (some 20)).verdict = .accepted := by decide
+example : (redirectCheck kEx 50 ord mdEx (some 3) (some 99)).verdict = .lookupFailed := by decide
+example : (redirectCheck kEx 50 ord mdEx (some 4) (some 50)).verdict = .verifyRaised := by decide
+example : (redirectCheck kEx 50 ord mdEx (some 4) (some 42)).handed = [40, 41] := by decide
+example : (accept true kEx 50 ord false mdEx (.detached true) ⟨some 3, some 99, ⟨[99], none⟩⟩).accepted = false := by decide
+example : (accept true kEx 50 ord true mdEx (.detached true) ⟨some 1, some 11, ⟨[11], none⟩⟩).accepted = true := by decide
+-- nested: advice assertion naming issuer 1 inside member 2's assertion: member 2's key (20) does not
+-- validate it although 2 is the `issuer=` argument; issuer 1's key does
+example : (accept true kEx 50 ord true mdEx (.after ⟨some 2, some 20, ⟨[], none⟩⟩ true) ⟨some 1, some 20, ⟨[], none⟩⟩).accepted = false := by decide
+example : (accept true kEx 50 ord true mdEx (.after ⟨some 2, some 20, ⟨[], none⟩⟩ true) ⟨some 1, some 11, ⟨[], none⟩⟩).accepted = true := by decide
+example : (accept true kEx 50 ord true mdEx (.after ⟨some 2, some 20, ⟨[], none⟩⟩ true) ⟨some 2, some 20, ⟨[], none⟩⟩).accepted = true := by decide
 
 end C03
